@@ -86,13 +86,14 @@ Definition wf (s : state) : Prop :=
 
 (* exceptions and outcomes *)
 Inductive exn := TypeError | ValueError | IndexError | KeyError | AttributeError | NotImplementedError
+               | UserError     (* the exception of a user callback that raises (C13): never raised by the library itself *)
                | IllTyped      (* the call is outside the modelled, well-typed API: never generated *)
                | OutOfFuel.    (* fuel exhausted: proved impossible (fuel_enough lemmas)            *)
 Definition exn_eqb (a b : exn) : bool :=
   match a, b with
   | TypeError, TypeError | ValueError, ValueError | IndexError, IndexError | KeyError, KeyError
   | AttributeError, AttributeError | NotImplementedError, NotImplementedError | IllTyped, IllTyped
-  | OutOfFuel, OutOfFuel => true
+  | OutOfFuel, OutOfFuel | UserError, UserError => true
   | _, _ => false
   end.
 
